@@ -543,6 +543,9 @@ def run_check(pid, tier='quick', replay=None):
         driver, derr = build_model_driver(pid)
         if driver is None:
             notes.append(derr)
+            # the model cannot be run: the correspondence is not established, never report OK
+            violation('model-driver-build-failed', {'what': (derr or '')[-3000:],
+                      'theorem_or_correspondence': 'extracted model driver of ' + pid}, found_input=False)
     # 2. implementation harness from the current working tree
     harness, herr = build_harness(pid, cfg)
     if harness is None:
